@@ -32,6 +32,7 @@ def run_entry(text, entry, judge=None, opts=None, extra_modules=(), guide=None):
         ex.guide = guide
     if opts.get('tape') is not None:
         ex.tape = opts['tape']
+    ex.max_wall = opts.get('max_wall', 0)
     if opts.get('concolic_tape') is not None:
         ex.concolic_tape = opts['concolic_tape']
     if opts.get('alloc_policy') is not None:
